@@ -778,3 +778,62 @@ def rule_fr1(ctx, accessors=True, setter=True):
                 "proj_data, which utils.normalize rescales in place on the "
                 "next distance / hyperboloid call, so coordinates read "
                 "earlier change under the caller", instance=inst)
+
+
+
+# ---------------------------------------------------------------------------
+# TS1: in apply(), the copy is only written once, after all slots were read
+
+
+def rule_ts1(ctx):
+    r = ctx.r
+    r.rule("TS1", "Transformation.apply reads every slot of the copied "
+                  "object before it writes the copy: after a "
+                  "`new_obj.set(...)` the derived slots have been "
+                  "recomputed from the already transformed primary data, so "
+                  "reading them back and transforming them transforms them "
+                  "twice")
+    f = ctx.p.get_function(PROJ, "Transformation.apply")
+    r.analysed(f)
+    copies = {dotted(n.targets[0]) for n in ast.walk(f.node)
+              if isinstance(n, ast.Assign) and len(n.targets) == 1
+              and isinstance(n.value, ast.Call)
+              and dotted(n.value.func) in ("copy", "copy.copy",
+                                           "copy.deepcopy", "deepcopy")}
+    if not copies:
+        raise AnalysisError("Transformation.apply: the copy of the argument "
+                            "was not found")
+    sets = [n for n in ast.walk(f.node) if isinstance(n, ast.Call)
+            and isinstance(n.func, ast.Attribute) and n.func.attr == "set"
+            and dotted(n.func.value) in copies]
+    if not sets:
+        raise AnalysisError("Transformation.apply: no <copy>.set(...) call")
+    first = min((n.lineno, n.col_offset) for n in sets)
+    late = [n for n in ast.walk(f.node) if isinstance(n, ast.Attribute)
+            and isinstance(n.ctx, ast.Load)
+            and n.attr in ("proj_data", "aux_data", "dual_data")
+            and dotted(n.value) in copies
+            and (n.lineno, n.col_offset) > first
+            and not any(n in list(ast.walk(s)) for s in sets)]
+    if not late:
+        r.ok("TS1", "apply:read-before-write", loc(f, sets[0]),
+             dotted(sets[0])[:100],
+             "all slots are read before the copy is written")
+    else:
+        x = late[0]
+        r.violation(
+            "TS1", f"{f.fq}|late-read:{x.attr}", loc(f, x),
+            norm_stmt(_stmt_of_node(f, x))[:140],
+            f"`{dotted(x)}` is read after `{dotted(sets[0])[:60]}`: set() "
+            "has already recomputed the derived data from the transformed "
+            "primary data, so this value is transformed a second time "
+            "((A@B)@X and A@(B@X) then differ in the auxiliary data)",
+            instance="apply:read-before-write")
+
+
+def _stmt_of_node(f, node):
+    parents = f.module.parents
+    cur = node
+    while not isinstance(cur, ast.stmt):
+        cur = parents[cur]
+    return cur
